@@ -300,7 +300,8 @@ def parse_minimize_for_optimal(minimize):
         raise ValueError(f"Couldn't parse `minimize` value: {minimize}.")
 
     minimize, custom_factor = match.groups()
-    factor = float(custom_factor) if custom_factor else 64
+    # n.b. keep the (integer) factor exact, costs can exceed 2**53
+    factor = int(custom_factor) if custom_factor else 64
     if minimize == "combo":
         return functools.partial(compute_con_cost_combo, factor=factor)
     elif minimize == "limit":
